@@ -207,9 +207,17 @@ def check(run):
     if "CDNS::CdnsBlock" not in clos:
         raise AnalysisBroken("R19.1", "CdnsBlock record not found")
     n_b = 0
+    # a borrowing type that provides its own copy constructor and copy assignment looks after its pointers itself: it is checked
+    # as the owner of those members, and the classes that hold it simply delegate to its operations
+    self_managing = {q for q in borrow if q in facts.records and
+                     facts.records[q].get("special", {}).get("copyCtor") not in ("implicit", "defaulted", "none", None) and
+                     facts.records[q].get("special", {}).get("copyAssign") not in ("implicit", "defaulted", "none", None)}
+    borrow = borrow - self_managing
     for q, r in sorted(clos.items()):
         bfields = [f for f in r["fields"] if mentions(f["t"], borrow) or "_Node_iterator" in f["t"] or "iterator" in f["t"].lower()]
         direct = [f for f in r["fields"] if f.get("ref") or f.get("ptr")]
+        if q in self_managing:
+            bfields = bfields + [f for f in direct if f not in bfields]
         if q in borrow:
             # the borrowing type itself (KeyRef): it is only ever stored inside an owner that is checked below
             run.ob("R19.1", "%s:is-borrowing-type" % short(q), True, r["file"], r["line"],
